@@ -425,6 +425,39 @@ impl Engine for C09 {
                 }
             }
         }
+        // fresh-process oracle for a few letters: evaluated again here (this process has by now
+        // rendered this world's histories and those of earlier runs) and in a brand-new process
+        if rep.violations.is_empty() && !letters.is_empty() {
+            let mut picks: Vec<usize> = (0..a).collect();
+            rng.shuffle(&mut picks);
+            picks.truncate(3);
+            let calls: Vec<Call> = picks.iter().map(|&i| letters[i].0.clone()).collect();
+            if let Some(fresh) = fresh_process_outcomes(&spec, policy, &calls) {
+                rep.bump("fresh_process_oracle.calls", calls.len() as u64);
+                for (c, f) in calls.iter().zip(fresh.iter()) {
+                    let Some(f) = f else { continue };
+                    let Ok(here) = clean_expected(&spec, policy, &srcs, &globals, c) else { continue };
+                    if f.is_budget() || here.is_budget() || f.is_panic() {
+                        continue;
+                    }
+                    if *f != here {
+                        let scn = Scn { world: spec.clone(), policy, histories: vec![vec![Op::Call(c.clone())]], class: "I1-result-differs".into() };
+                        rep.violations.push(Violation {
+                            signature: "I1-result-differs".into(),
+                            class: "I1-result-differs".into(),
+                            detail: format!(
+                                "{} on a fresh parser gives {} in this process (which has rendered other things before) but {} in a brand-new process: state survives in the process",
+                                c.show(), here.show(), f.show()
+                            ),
+                            scenario: serde_json::to_value(&scn).unwrap(),
+                        });
+                        break;
+                    }
+                }
+            } else {
+                rep.bump("fresh_process_oracle.unavailable", 1);
+            }
+        }
         rep.bump("histories", histories);
         rep.bump(&format!("policy.{policy:?}"), 1);
         let stateful = spec.templates.iter().any(|t| {
@@ -553,6 +586,50 @@ impl Engine for C09 {
         true
     }
     fn required_probes(&self) -> Vec<&'static str> {
-        vec!["fault.sink.hard", "fault.render.abort", "op.reparse", "op.clone_parser", "policy.Lazy", "policy.Eager", "policy.OnDemand", "letters.expected_err"]
+        vec!["fault.sink.hard", "fault.render.abort", "op.reparse", "op.clone_parser", "policy.Lazy", "policy.Eager", "policy.OnDemand", "letters.expected_err", "fresh_process_oracle.calls"]
     }
+}
+
+// ---- fresh-process oracle -----------------------------------------------------------------------
+//
+// State kept in a process-wide `static` (a memo keyed too coarsely, say) pollutes an in-process
+// oracle exactly as it pollutes the subject. A few letters per run are therefore also evaluated in a
+// brand-new process, which has rendered nothing else.
+
+#[derive(Serialize, Deserialize)]
+struct OracleReq {
+    world: WorldSpec,
+    policy: PolicyKind,
+    calls: Vec<Call>,
+}
+
+/// `liquid-sim oracle-c09`: request on stdin, outcomes on stdout.
+pub fn oracle_main() -> i32 {
+    let mut txt = String::new();
+    if std::io::Read::read_to_string(&mut std::io::stdin(), &mut txt).is_err() {
+        return 2;
+    }
+    let Ok(req) = serde_json::from_str::<OracleReq>(&txt) else { return 2 };
+    let srcs = req.world.sources();
+    let globals = req.world.globals();
+    let outs: Vec<Option<Outcome>> = req.calls.iter().map(|c| clean_expected(&req.world, req.policy, &srcs, &globals, c).ok()).collect();
+    println!("{}", serde_json::to_string(&outs).unwrap());
+    0
+}
+
+fn fresh_process_outcomes(spec: &WorldSpec, policy: PolicyKind, calls: &[Call]) -> Option<Vec<Option<Outcome>>> {
+    use std::io::Write;
+    let exe = std::env::current_exe().ok()?;
+    let mut child = std::process::Command::new(exe)
+        .arg("oracle-c09")
+        .arg("-")
+        .stdin(std::process::Stdio::piped())
+        .stdout(std::process::Stdio::piped())
+        .stderr(std::process::Stdio::null())
+        .spawn()
+        .ok()?;
+    let req = OracleReq { world: spec.clone(), policy, calls: calls.to_vec() };
+    child.stdin.take()?.write_all(serde_json::to_string(&req).ok()?.as_bytes()).ok()?;
+    let out = child.wait_with_output().ok()?;
+    serde_json::from_slice(&out.stdout).ok()
 }
